@@ -17,7 +17,7 @@ Definition touches (s : asm_slot) (i : asm_input) : bool :=
   end.
 
 (* what the properties observe of the sentences delivered by the lines that touch s *)
-Fixpoint slot_outs (s : asm_slot) (ins : list asm_input) (outs : list (list ais_sentence)) : list delivery :=
+Fixpoint slot_outs (s : asm_slot) (ins : list asm_input) (outs : list (list ais_sentence)) : list asm_delivery :=
   match ins, outs with
   | i :: ir, o :: or => (if touches s i then map delivery_of o else []) ++ slot_outs s ir or
   | _, _ => []
